@@ -582,6 +582,17 @@ def gvec(ds):
     return "vec![" + ", ".join(f'"{d.strip()}".to_string()' for d in ds).replace('\\', '\\\\') + "]"
 
 
+def c16_field_name():
+    """Rust field names: mostly ordinary, now and then what people write to dodge a keyword (`type_`, `in_`) or to
+    mark a field as internal (`_id`). They are described under exactly those names."""
+    r = R.random()
+    if r < 0.08:
+        return R.choice(["type", "match", "in", "ref", "where", "loop", "use", "move", "self", "mod", "fn", "as", "box", "final", "data", "typed"]) + "_"
+    if r < 0.10:
+        return "_" + R.choice(["id", "x", "reserved"])
+    return snake(R.randint(1, 2))
+
+
 def gen_c16(k):
     kind = R.choice(["type_struct", "type_enum", "custom_struct", "custom_enum", "reply_error", "type_struct", "custom_struct"])
     name = "T" + pascal(snake(R.randint(1, 2))) + str(k)
@@ -600,7 +611,7 @@ def gen_c16(k):
         fields = []
         for _ in range(nf):
             while True:
-                fn = snake(R.randint(1, 2))
+                fn = c16_field_name()
                 if fn not in used:
                     used.add(fn)
                     break
@@ -677,7 +688,7 @@ def gen_c16(k):
                     fields.append((fn, t, g, ds))
                 for _ in range(R.randint(1, 3)):
                     while True:
-                        fn = snake(R.randint(1, 2))
+                        fn = c16_field_name()
                         if fn not in fu:
                             fu.add(fn)
                             break
